@@ -47,7 +47,7 @@ import (
 // Cell is one authored table cell. ColSpan>=1 (1 = no merge). VCont marks a cell that continues a
 // vertical merge from the row above (DOCX <w:vMerge/>, ODT covered-table-cell, PPTX vMerge="1", HTML: cell omitted and rowspan on the root).
 type Cell struct {
-	Text    string // may contain '\n' (paragraph break inside the cell), '|', leading/trailing spaces, unicode; never a backslash
+	Text    string // may contain '\n' (paragraph break inside the cell), '|', leading/trailing spaces, unicode, backslashes (also in front of a pipe)
 	ColSpan int
 	VCont   bool
 	RowSpan int // >=1 on a vertical-merge root (number of rows), else 1
